@@ -41,6 +41,9 @@ Definition chk_write (wl : N) (data : list N) (off id : N) ex (exp : res unit) :
 (* the parsers' verdicts observed on the implementation: kinds that raise, with the error *)
 Definition parse_of (tbl : list (N * err)) (kind : N) (_ : list N) : res unit :=
   match find (fun p => fst p =? kind) tbl with Some p => Err (snd p) | None => Ok tt end.
+(* get_fru_chassis_area (kind 1) / get_fru_board_area (2) / get_fru_product_area (3): raw bytes handed to the parser *)
+Definition chk_infoarea (tbl : list (N * err)) (kind id : N) ex (exp : res (list N)) : bool :=
+  chk_prog bytes_eqb (get_fru_info_area (parse_of tbl) kind id) ex exp.
 Definition chk_inv (tbl : list (N * err)) (id : N) ex (exp : res (list (option (list N)))) : bool :=
   chk_prog (list_eqb (option_eqb bytes_eqb)) (get_fru_inventory (parse_of tbl) 4000 id) ex exp.
 
